@@ -265,6 +265,11 @@ var NamedTargets = map[string]int{"web": 8080, "adm": 9090, "alt": 8081}
 // Apply mutates the world and returns the informer events the change produces.
 func (w *World) Apply(op Op) ([]Ev, error) {
 	t := op.Text
+	if t == "opt~subsets=1" {
+		// from here on every address of an Endpoints object goes into a subset of its own
+		w.SplitSubsets = true
+		return nil, nil
+	}
 	if len(t) < 4 {
 		return nil, fmt.Errorf("bad op %q", t)
 	}
@@ -344,6 +349,9 @@ func (w *World) Apply(op Op) ([]Ev, error) {
 		}
 		ns, name := splitKey(f[0])
 		obj := BuildEndpoints(ns, name, parseAddrs(f[1]), w.servicePorts(f[0]), NamedTargets)
+		if w.SplitSubsets {
+			SplitSubsets(obj)
+		}
 		old, exists := w.Endpoints[f[0]]
 		w.Endpoints[f[0]] = obj
 		if exists {
